@@ -45,7 +45,7 @@ var profiles = map[string]Profile{
 		Faults: map[string]int{"member": 10, "isolate-leader": 3, "isolate-any": 2, "transfer": 3, "crash": 2, "restart": 1, "stall": 2, "snapshot": 1, "heal": 2, "tnow": 3, "selfdemote": 2, "selfremove": 1, "shrink": 2}},
 	"snapshot": {MinNodes: 3, MaxNodes: 4, Steps: 14, Clients: 5, MaxIDs: 5, DelayProb: 0.05,
 		Ops:    map[string]int{"update": 10, "read": 1, "dirty": 1},
-		Faults: map[string]int{"snapshot": 10, "isolate-any": 4, "stall": 2, "restart": 3, "crash": 2, "member": 2, "transfer": 1, "heal": 3}},
+		Faults: map[string]int{"snapshot": 8, "slow-snapshot": 4, "isolate-any": 4, "stall": 2, "restart": 3, "crash": 2, "member": 2, "transfer": 1, "heal": 3}},
 	"transfer": {MinNodes: 3, MaxNodes: 5, Steps: 16, Clients: 4, MaxIDs: 6, DelayProb: 0.05,
 		Ops:    map[string]int{"update": 6, "read": 1, "barrier": 1},
 		Faults: map[string]int{"transfer": 10, "stall": 3, "oneway": 2, "isolate-any": 2, "break": 2, "member": 2, "heal": 2}},
@@ -554,6 +554,23 @@ func (e *engineA) fault(act string) {
 			target = 99 // invalid
 		}
 		go e.cl.transfer(l, target, time.Duration(1+e.rng.Intn(6))*e.hb())
+	case "slow-snapshot":
+		// the snapshot file is written, then publication waits while the load goes on
+		n := e.cl.leader()
+		if n == nil || e.rng.Intn(3) == 0 {
+			n = e.randLive()
+		}
+		if n == nil {
+			return
+		}
+		hit := e.pc.hold(n.dir, "snap.beforePublish")
+		go e.cl.takeSnapshot(n, 0)
+		select {
+		case <-hit:
+			e.sleepHB(2, 5)
+		case <-time.After(20 * e.hb()):
+		}
+		e.pc.release(n.dir, "snap.beforePublish")
 	case "snapshot":
 		n := e.randLive()
 		if e.rng.Intn(2) == 0 {
